@@ -206,6 +206,10 @@ func VerifC10dSequence(k, subset int) {
 
 var c10fValues = []string{"-2", "-1", "0", "1", "2", "99999999999999999999", "x", ""}
 
+// what a client may put where the filter is expected (flag list + pattern)
+var c10fFilters = []string{"regex:default x", "regex:invert x", "regex:noop x", "regex:invert,noop x", "regex:default,noop x",
+	"regex:noop,invert x", "regex:bogus x", "regex: x", "regex:default,invert", "regex:default", "x", ""}
+
 // VerifC10fReadOptions: a read command (grep, cat or tail) on a file that
 // exists, with every combination of client-supplied before/after/max values
 // out of {-2,-1,0,1,2, a number beyond int64, a non-number, empty}: the
@@ -234,7 +238,12 @@ func VerifC10fReadOptions(mode int) {
 			opts += ":" + name + "=" + c10fValues[v-1]
 		}
 	}
-	c10Payload = word + opts + " " + path + " regex:default x"
+	filter := c10fFilters[0]
+	if opts == "" {
+		// (with default options) every shape of the filter argument
+		filter = c10fFilters[verifrt.Choose("filter", len(c10fFilters))]
+	}
+	c10Payload = word + opts + " " + path + " " + filter
 	h.Write([]byte("protocol 4.1 base64 @;"))
 	verifrt.Sleep(20 * time.Second)
 	h.VerifShutdown()
